@@ -346,8 +346,7 @@ class Build:
         import betterproto
 
         if full_name.startswith(".google.protobuf."):
-            import betterproto.lib.google.protobuf as g
-
+            g = self._wkt_lib()
             c = getattr(g, full_name.split(".")[-1])
             self._bp_cls[full_name] = c
             return c
@@ -368,6 +367,14 @@ class Build:
         self._bp_cls[full_name] = cands[0]
         return cands[0]
 
+    def _wkt_lib(self):
+        """the bundled google.protobuf classes the generated code of THIS build refers to (the pydantic flavour has its own)"""
+        import importlib
+
+        if "pydantic_dataclasses" in (self.opts or ""):
+            return importlib.import_module("betterproto.lib.pydantic.google.protobuf")
+        return importlib.import_module("betterproto.lib.google.protobuf")
+
     def bp_enum(self, full_name: str):
         import betterproto
 
@@ -376,9 +383,7 @@ class Build:
             return ov[full_name]
 
         if full_name.startswith(".google.protobuf."):
-            import betterproto.lib.google.protobuf as g
-
-            return getattr(g, full_name.split(".")[-1])
+            return getattr(self._wkt_lib(), full_name.split(".")[-1])
         pkg, path = self._split_enum(full_name)
         mod = self.module(pkg)
         want = "".join(path).replace("_", "").lower()
